@@ -266,6 +266,7 @@ def check(tier, seed, procs):
     from vf import hailenv  # noqa: F401  (import hail through the framework's shims)
     import hail as hl  # noqa: F401
 
+    J.selftest()
     _selfcheck()
     cls = build()
     cases = call_cases(tier)
